@@ -152,6 +152,7 @@ class Ctx:
     self.cur_case = None
     self.t0 = time.time()
     self.notes = {}
+    self.config = None         # name of the configuration shard this context runs in (vmon.run CONFIGS), or None
     self.xproc_child = False   # True inside a fresh-interpreter replay child (vmon.xproc)
     self.only_cases = None     # set of case ids: run exactly these, whatever the shard assignment (xproc children)
 
@@ -225,6 +226,7 @@ class Ctx:
         'case': self.cur_case,
         'shard': self.shard,
         'nshards': self.nshards,
+        'config': self.config,
         'witness': jsonable(witness),
     })
 
@@ -270,6 +272,24 @@ class Ctx:
               'frames': [f'{f}:{l}:{n}' for f, l, n in frames[-6:]]
           })
       return Raised(e, frames)
+
+  def absorb(self, res):
+    """Merges the result() of a child context (a family run in a fresh interpreter, see vmon.xproc.run_family)."""
+    self.evaluations += res['evaluations']
+    self.nontrivial |= set(res['nontrivial'])
+    for k, v in res['counters'].items():
+      self.count(k, v)
+    for k, v in res['classes'].items():
+      self.klass(k, v)
+    for smp in res['samples']:
+      if len(self.samples) < MAX_SAMPLES:
+        self.samples.append(smp)
+    for v in res['violations']:
+      if len(self.violations) < MAX_VIOLATIONS_KEPT:
+        self.violations.append(v)
+    for k, c in res['violation_keys'].items():
+      self.violation_keys[k] = self.violation_keys.get(k, 0) + c
+    self.inconclusive.extend(res['inconclusive'][:20 - len(self.inconclusive)])
 
   # ------------------------------------------------------------------ results
   def result(self):
